@@ -551,12 +551,39 @@ def explore(case, limit, root=()):
     return results, not stack
 
 
+def sample(case, n, seed):
+    """n random schedules (random baton choices; duplicates dropped)"""
+    import random
+    rng = random.Random(repr(seed))
+    na = len(case["programs"])
+    results, seen = [], set()
+    for _ in range(n):
+        # a random preference list; biased towards runs of the same actor so that both long and
+        # fine-grained interleavings occur
+        choices, cur = [], rng.randrange(na)
+        sw = rng.choice([0.15, 0.35, 0.6])
+        for _k in range(48):
+            if rng.random() < sw:
+                cur = rng.randrange(na)
+            choices.append(cur)
+        res = run_schedule(case, choices)
+        key = tuple(d[0] for d in res["decisions"])
+        if key in seen:
+            continue
+        seen.add(key)
+        results.append(res)
+    return results, False
+
+
 def explore_task(task):
     case, limit, root = task
     env.boot()
     try:
         case = dict(case, _content=pack_content(case["chunks"]))
-        results, complete = explore(case, limit, root)
+        if isinstance(root, tuple) and root and root[0] == "sample":
+            results, complete = sample(case, limit, root[1])
+        else:
+            results, complete = explore(case, limit, root)
         slim = []
         for r in results:
             line, impl = model_io(r)
@@ -631,8 +658,8 @@ def judge(ctx, r):
 
 def run(ctx, limit=None):
     install()
-    lim_big = limit or ctx.pick(60, 3000)
-    lim3 = limit or ctx.pick(14, 300)
+    lim_big = limit or ctx.pick(44, 3000)
+    lim3 = limit or ctx.pick(10, 300)
     for i in (0, 1, 2, 99):
         actor_source(i)
     for (chunks, _p) in PAIRS + BIG_PAIRS + TRIPLES:
@@ -643,10 +670,13 @@ def run(ctx, limit=None):
     tasks = []
     for (c, p) in PAIRS:
         tasks += [(mk(c, p), 100000, [0], "all"), (mk(c, p), 100000, [1], "all")]
-    for (c, p) in BIG_PAIRS:
-        tasks += [(mk(c, p), lim_big // 2, [0], "big"), (mk(c, p), lim_big // 2, [1], "big")]
-    for (c, p) in TRIPLES:
-        tasks += [(mk(c, p), lim3, [], "3")]
+    for j, (c, p) in enumerate(BIG_PAIRS):
+        if ctx.tier == "thorough" and limit is None:
+            tasks += [(mk(c, p), lim_big // 2, [0], "big"), (mk(c, p), lim_big // 2, [1], "big")]
+        else:
+            tasks += [(mk(c, p), lim_big // 2, ("sample", (ctx.seed, j, h)), "big") for h in (0, 1)]
+    for j, (c, p) in enumerate(TRIPLES):
+        tasks += [(mk(c, p), lim3, ("sample", (ctx.seed, "t", j)), "3")]
     outs = ctx.pmap(explore_task, [t[:3] for t in tasks], chunksize=1)
     complete = True
     cases, lines, impls = [], [], []
